@@ -199,6 +199,27 @@ fn beyond_universe<T: Sc>(rep: &mut Report) {
         ("ten parameters in rotated order", ten_valid, None),
         ("closure of arity 9 for ten names", ten_bad_arity, Some("IncorrectParameterCount")),
     ];
+    // seventy parameters (beyond any machine word used as a bit set): all used / p64 unused / p69 unused
+    let names70: Vec<String> = (0..70).map(|k| format!("q{k}")).collect();
+    let refs70: Vec<&str> = names70.iter().map(|x| x.as_str()).collect();
+    let seventy = |skip: Option<usize>| -> Vec<(String, Vec<String>, i64)> {
+        let mut v = vec![c("N", &refs70, 0)];
+        let used: Vec<&str> = (0..70).filter(|k| Some(*k) != skip).map(|k| refs70[k]).collect();
+        for chunk in used.chunks(10) {
+            v.push(c("F", chunk, chunk.len() as i64));
+            for n in chunk {
+                v.push(c("D", &[n], chunk.len() as i64));
+            }
+        }
+        v.push(c("X", &[], 0));
+        v.push(c("P", &[], 70));
+        v
+    };
+    let mut cases = cases;
+    cases.push(("seventy parameters, all used", seventy(None), None));
+    cases.push(("seventy parameters, q64 unused", seventy(Some(64)), Some("UnusedParameter")));
+    cases.push(("seventy parameters, q69 unused", seventy(Some(69)), Some("UnusedParameter")));
+    cases.push(("seventy parameters, q5 unused", seventy(Some(5)), Some("UnusedParameter")));
     for (what, calls, expect) in cases {
         let r = catch_unwind(AssertUnwindSafe(|| replay::<T>(&calls)));
         let det = |got: String| json!({"ctx": "call sequence beyond the enumerated universe", "case": what, "scalar": T::NAME, "calls": calls, "expected": expect, "got": got});
@@ -213,7 +234,7 @@ fn beyond_universe<T: Sc>(rep: &mut Report) {
             (Ok(Err(k)), None) => rep.violation("C15", det(k.to_string())),
         }
     }
-    rep.count("sequences_beyond_universe", 10);
+    rep.count("sequences_beyond_universe", 14);
 }
 
 pub fn run(path: &str) -> Report {
